@@ -864,6 +864,96 @@ def main():
                 if one is None or one.get() is None or one.get() is not one.get("Test/Zone"):
                     verdict.violation({"kind": "single zone is not returned without naming it",
                                        "input": {"text": "\r\n".join(lines)}})
+        # ---- files with 2-3 VTIMEZONE blocks: every get(tzid) returns the zone defined under THAT tzid;
+        #      a later block without TZID / DTSTART / TZOFFSETFROM / TZOFFSETTO is ValueError (the parser
+        #      state -- tzid, comps -- must be reset at every BEGIN:VTIMEZONE); a repeated TZID
+        n_multi = 12 if tier == "quick" else 150
+        for k in range(n_multi):
+            nb = 2 + (k % 2)
+            picked, offs_seen = [], set()
+            j = k * 3
+            while len(picked) < nb and j < k * 3 + len(rules):
+                rr_ = rules[j % len(rules)]
+                j += 1
+                if rr_["off"] in offs_seen:
+                    continue                 # distinct standard offsets: a swap of two zones is visible
+                offs_seen.add(rr_["off"])
+                picked.append(rr_)
+            if len(picked) < nb:
+                continue
+            ids = ["Zone/A", "Zone B", "Zone/C"][:nb]
+            blocks = []
+            for tzid, rr_ in zip(ids, picked):
+                dlx, sdx = local_onsets(o, rr_, years)
+                blocks.append(vtimezone(rr_, dlx, sdx, "rdate", "daylight_first" if k % 2 else "standard_first",
+                                        rng, tzid=tzid))
+            wrap = (lambda bs: ["BEGIN:VCALENDAR"] + [l for b in bs for l in b] + ["END:VCALENDAR"]) \
+                if k % 3 else (lambda bs: [l for b in bs for l in b])
+            good = wrap(blocks)
+            st.bump("multi_zone_files")
+            check_parse(verdict, st, o, good, "multi_zone")
+            text = "\r\n".join(good) + "\r\n"
+            ic, status = build_ical(text)
+            if ic is None:
+                verdict.violation({"kind": "well-formed multi-zone VTIMEZONE stream rejected",
+                                   "input": {"text": text}, "impl": status})
+            else:
+                if sorted(ic.keys()) != sorted(ids):
+                    verdict.violation({"kind": "multi-zone stream: keys() are not the TZIDs of the blocks",
+                                       "input": {"text": text}, "impl": sorted(ic.keys()), "want": sorted(ids)})
+                for tzid, rr_, blk in zip(ids, picked, blocks):
+                    try:
+                        zz = ic.get(tzid)
+                    except Exception as ex:
+                        zz = None
+                    alone = build_ical("\r\n".join(blk) + "\r\n")[0].get()
+                    qs = [P.ystart(y) + d for y in (Y0 + 1, Y0 + 2) for d in (40 * 86400, 200 * 86400 + 3600,
+                                                                            300 * 86400 + 7200)]
+                    st.evals += len(qs)
+                    got = None if zz is None else [P.impl_obs_wall(zz, w, 0) for w in qs]
+                    want = [P.impl_obs_wall(alone, w, 0) for w in qs]
+                    struct = None if zz is None else sorted(
+                        [int(c.tzoffsetto.total_seconds()), c.tzname] for c in zz._comps)
+                    wstruct = sorted([[rr_["off"], rr_["name"]], [rr_["dst"]["off"], rr_["dst"]["name"]]])
+                    if got != want or struct != wstruct:
+                        verdict.violation({"kind": "multi-zone stream: get(tzid) is not the zone defined under that TZID",
+                                           "input": {"text": text, "tzid": tzid, "rule": rr_},
+                                           "impl": {"obs": got, "components": struct},
+                                           "want": {"obs": want, "components": wstruct}})
+                        continue
+                    g2 = o.call(P.E_GUARDS, P.enc_posix(rr_))
+                    if g2[0] and g2[1] and g2[2] and rr_["name"] not in ("GMT", "UTC"):
+                        zs = tz.tzstr("".join(chr(c) for c in o.call(P.E_RENDER, P.enc_posix(rr_))))
+                        tw = [P.impl_obs_wall(zs, w, 0) for w in qs]
+                        st.evals += len(qs)
+                        if tw != got:
+                            verdict.violation({"kind": "multi-zone stream: get(tzid) differs from tzstr of that "
+                                                       "zone's rule", "input": {"text": text, "tzid": tzid,
+                                                                                "rule": rr_},
+                                               "impl": got, "tzstr_impl": tw})
+                    mv = o.call(P.E_ICAL_GET, [1] + P.estr(tzid) + enc_lines(text.splitlines()))
+                    if mv != [0, 2]:
+                        st.model_diff += 1
+                        verdict.violation({"kind": "correspondence: get(tzid) differs from the model",
+                                           "input": {"text": text, "tzid": tzid}, "impl": [0, 2], "model": mv},
+                                          concrete=False)
+            # a LATER block that lacks a mandatory line
+            for kb in range(1, nb):
+                for cls, pref in (("multi_later_block_missing_tzid", "TZID"),
+                                  ("multi_later_block_missing_dtstart", "DTSTART"),
+                                  ("multi_later_block_missing_offsetfrom", "TZOFFSETFROM"),
+                                  ("multi_later_block_missing_offsetto", "TZOFFSETTO")):
+                    blk = list(blocks[kb])
+                    idx = [n for n, l in enumerate(blk) if l.upper().startswith(pref)]
+                    if not idx:
+                        continue
+                    del blk[idx[0] if pref == "TZID" else rng.choice(idx)]
+                    bad = wrap(blocks[:kb] + [blk] + blocks[kb + 1:])
+                    check_parse(verdict, st, o, bad, cls, expect_valueerror=True)
+            # a repeated TZID: no error is documented; implementation and model must agree
+            rep = [list(b) for b in blocks]
+            rep[-1] = [("TZID:" + ids[0]) if l.upper().startswith("TZID") else l for l in rep[-1]]
+            check_parse(verdict, st, o, wrap(rep), "multi_repeated_tzid")
         # RFC 5545 unfolding removes CRLF + ONE leading blank only: a TZID / TZNAME containing blanks,
         # folded right AFTER a blank, must keep that blank (the zone stays addressable by get(tzid))
         for k, r in enumerate(rules[:(6 if tier == "quick" else 60)]):
@@ -932,7 +1022,8 @@ def main():
                   "folded": 5, "cache_sequences": 5, "thread_forced_interleaving_zones": 3,
                   "std_offset_change_zones": 2, "parse_wellformed_ok": 50, "parse_missing_tzid_1": 5,
                   "parse_missing_dtstart_1": 5, "parse_missing_offset_1": 5, "fold_after_blank": 3,
-                  "negative_saving_zones": 2}
+                  "negative_saving_zones": 2, "multi_zone_files": 8,
+                  "parse_multi_later_block_missing_tzid_1": 8}
         short = {k: (st.hist.get(k, 0), v) for k, v in floors.items() if st.hist.get(k, 0) < v}
         if short:
             verdict.violation({"kind": "coverage floor not reached (stream ran empty or was cut too early)",
